@@ -109,6 +109,32 @@ Theorem C11_after_warmup_iff_time :
 Proof. exact after_warmup_iff_time. Qed.
 Print Assumptions C11_after_warmup_iff_time.
 
+(* The same at the level of the observation log: the log of the replication
+   (END marker aside, newest first) is the concatenation, in execution order,
+   of what each executed event's handler observed ([ev_obs]: its data events up
+   to a failing action; the WARMUP marker for the warm-up event); if W was
+   executed, everything logged after the WARMUP marker comes from the events
+   executed after W -- those of priority below W's have time >= warm-up time --
+   and everything before it from construct_model and the events before W --
+   those of priority below W's have time < warm-up time.                      *)
+Theorem C11_observations_split_at_warmup :
+  forall p fuel s0 r cs,
+    Inv s0 -> running s0 = false ->
+    let s1 := fst (do_init p s0 r) in
+    flag s1 = false ->
+    forallb (fun c => negb (is_init c)) cs = true ->
+    let s' := fst (run_cmds fuel p s1 cs) in
+    let W := warm_event p s0 r in
+    let f := fun ec => rev (ev_obs p ec) in
+    exists l, trace s' = l ++ trace s0
+      /\ nonend (obs s') = flat_map f l ++ nonend (obs s1)
+      /\ forall l2 c l1, l = l2 ++ (W, c) :: l1 ->
+           nonend (obs s') = flat_map f l2 ++ [ObsWarm (r_warm r)] ++ flat_map f l1 ++ nonend (obs s1)
+           /\ (forall e ce, In (e, ce) l2 -> (ev_prio e < 10)%Z -> (r_warm r <= ev_time e)%Z)
+           /\ (forall e ce, In (e, ce) l1 -> (ev_prio e < 10)%Z -> (ev_time e < r_warm r)%Z).
+Proof. exact observations_split_at_warmup. Qed.
+Print Assumptions C11_observations_split_at_warmup.
+
 (* the observation log of a replication is chronological: construct_model's
    observations at the start time, then non-decreasing times up to the clock *)
 Theorem C11_replication_log_chronological :
